@@ -197,3 +197,377 @@ Proof.
       + apply in_has_key. apply hstep_keys_grow. apply has_key_true_in. exact K1. }
   exact (proj1 G).
 Qed.
+
+(* ================================================================ TreeSet::pvMergeTo (every shape oracle) *)
+
+Ltac tstep_cases c multi st :=
+  unfold tstep; destruct st as [kept rest dst w stat shape]; simpl;
+  destruct stat; simpl; try tauto;
+  destruct rest as [|x r]; simpl;
+  [ | destruct (step_func w) as [w1|] eqn:Ef; simpl;
+      [ destruct (negb multi && has_key dst (key x)) eqn:Eh; simpl;
+        [ | destruct (step_alloc w1) as [w2|] eqn:Ea; simpl;
+            [ destruct (pop shape) as [internal sh] eqn:Ep; simpl;
+              destruct (extract_reloc c w2 x (pred_of kept internal)) as [w3 [e|]] eqn:Ee; simpl | ] ]
+      | ] ].
+
+Lemma tstep_conserve c multi init st :
+  Permutation (tsrc_items st ++ t_dst st) init -> Permutation (tsrc_items (tstep c multi st) ++ t_dst (tstep c multi st)) init.
+Proof.
+  unfold tsrc_items. tstep_cases c multi st; intros P; simpl in *; try exact P.
+  - rewrite <- (app_assoc kept [x] r). simpl. exact P.
+  - apply extract_reloc_value in Ee. subst e. etransitivity; [|exact P].
+    rewrite app_assoc. etransitivity; [symmetry; apply Permutation_cons_append|].
+    rewrite <- !app_assoc. simpl. apply Permutation_middle.
+Qed.
+
+Theorem tmerge_conservation c multi src dst w shape n :
+  Permutation (tsrc_items (trun c multi n (tinit src dst w shape)) ++ t_dst (trun c multi n (tinit src dst w shape)))
+              (src ++ dst).
+Proof. induction n; simpl; [reflexivity|]. apply tstep_conserve. exact IHn. Qed.
+
+Lemma tstep_nodup c multi st : multi = false ->
+  NoDup (map key (t_dst st)) -> NoDup (map key (t_dst (tstep c multi st))).
+Proof.
+  intros Hm. tstep_cases c multi st; intros N; subst multi; simpl in *; try exact N.
+  apply extract_reloc_value in Ee. subst e. apply nodup_keys_snoc; assumption.
+Qed.
+
+Theorem tmerge_unique_nodup c src dst w shape n :
+  NoDup (map key dst) -> NoDup (map key (t_dst (trun c false n (tinit src dst w shape)))).
+Proof. intros N. induction n; simpl; [exact N|]. apply tstep_nodup; [reflexivity|exact IHn]. Qed.
+
+Lemma tstep_no_copy c multi st : nothrow_reloc c = true ->
+  no_copy (tr (t_w st)) -> no_copy (tr (t_w (tstep c multi st))).
+Proof.
+  intros Hc. tstep_cases c multi st; intros N; simpl in *; try exact N;
+  try (apply step_func_tr in Ef); try (apply step_alloc_tr in Ea);
+  try (rewrite Ef; exact N); try (apply no_copy_cons; [reflexivity|]; try rewrite Ea; try rewrite Ef; exact N).
+  - eapply extract_reloc_no_copy; [exact Hc| |exact Ee]. rewrite Ea, Ef. exact N.
+  - eapply extract_reloc_no_copy; [exact Hc| |exact Ee]. rewrite Ea, Ef. exact N.
+Qed.
+
+Theorem tmerge_no_copy c multi src dst w shape n : nothrow_reloc c = true -> no_copy (tr w) ->
+  no_copy (tr (t_w (trun c multi n (tinit src dst w shape)))).
+Proof. intros Hc N. induction n; simpl; [exact N|]. apply tstep_no_copy; assumption. Qed.
+
+Lemma tstep_keys_grow c multi st k : In k (map key (t_dst st)) -> In k (map key (t_dst (tstep c multi st))).
+Proof.
+  tstep_cases c multi st; intros I; simpl in *; try exact I.
+  rewrite map_app. apply in_or_app. left. exact I.
+Qed.
+
+Lemma tstep_stays c multi st y : multi = false -> In y (tsrc_items st) -> has_key (t_dst st) (key y) = true ->
+  In y (tsrc_items (tstep c multi st)).
+Proof.
+  intros Hm. unfold tsrc_items. tstep_cases c multi st; intros I K; subst multi; simpl in *; try exact I.
+  - rewrite <- app_assoc. exact I.
+  - apply extract_reloc_value in Ee. subst e.
+    assert (Hne : y <> x) by (intros ->; congruence).
+    apply in_app_or in I. apply in_or_app. destruct I as [I|[I|I]]; [left; exact I|congruence|right; exact I].
+Qed.
+
+Theorem tmerge_refused_stays c src dst w shape n y :
+  In y src -> has_key dst (key y) = true -> In y (tsrc_items (trun c false n (tinit src dst w shape))).
+Proof.
+  intros I K.
+  assert (G : In y (tsrc_items (trun c false n (tinit src dst w shape))) /\
+              has_key (t_dst (trun c false n (tinit src dst w shape))) (key y) = true).
+  { induction n; simpl.
+    - split; [exact I|exact K].
+    - destruct IHn as [I1 K1]. split.
+      + apply tstep_stays; [reflexivity|exact I1|exact K1].
+      + apply in_has_key. apply tstep_keys_grow. apply has_key_true_in. exact K1. }
+  exact (proj1 G).
+Qed.
+
+(* completeness of the tree merge: when the loop has finished, every item left in the source has its key in a
+   unique-key destination, and nothing is left when the destination is a multi-key container *)
+Definition tdone_inv (multi : bool) (st : tstate) : Prop :=
+  forall y, In y (t_kept st) -> multi = false /\ has_key (t_dst st) (key y) = true.
+
+Lemma has_key_app d e k : has_key d k = true -> has_key (d ++ e) k = true.
+Proof. unfold has_key. rewrite existsb_app. intros ->. reflexivity. Qed.
+
+Lemma tstep_done c multi st : tdone_inv multi st -> tdone_inv multi (tstep c multi st).
+Proof.
+  unfold tdone_inv. tstep_cases c multi st; intros H y I; simpl in *; try (apply H; exact I).
+  - apply in_app_or in I. destruct I as [I|[I|[]]]; [apply H; exact I|]. subst y.
+    apply andb_prop in Eh. destruct Eh as [E1 E2]. split; [destruct multi; [discriminate|reflexivity]|exact E2].
+  - destruct (H y I) as [M K]. split; [exact M|]. apply has_key_app. exact K.
+Qed.
+
+Lemma tstep_finished_rest c multi st : (t_stat st = Finished -> t_rest st = []) ->
+  t_stat (tstep c multi st) = Finished -> t_rest (tstep c multi st) = [].
+Proof.
+  tstep_cases c multi st; intros F Hs; try discriminate; try reflexivity; try (apply F; reflexivity).
+Qed.
+
+Theorem tmerge_finished_complete c multi src dst w shape n :
+  t_stat (trun c multi n (tinit src dst w shape)) = Finished ->
+  t_rest (trun c multi n (tinit src dst w shape)) = [] /\
+  forall y, In y (tsrc_items (trun c multi n (tinit src dst w shape))) ->
+    multi = false /\ has_key (t_dst (trun c multi n (tinit src dst w shape))) (key y) = true.
+Proof.
+  assert (G : tdone_inv multi (trun c multi n (tinit src dst w shape)) /\
+              (t_stat (trun c multi n (tinit src dst w shape)) = Finished ->
+               t_rest (trun c multi n (tinit src dst w shape)) = [])).
+  { induction n; simpl.
+    - split; [intros y []|discriminate].
+    - destruct IHn as [D F]. split; [apply tstep_done; exact D|].
+      apply tstep_finished_rest. exact F. }
+  intros Hs. destruct G as [D F]. split; [exact (F Hs)|].
+  intros y I. unfold tsrc_items in I. rewrite (F Hs), app_nil_r in I. exact (D y I).
+Qed.
+
+(* with no failure scheduled the loop does finish within length src + 1 iterations *)
+Definition quiet (w : world) : Prop := sf w = [] /\ sa w = [] /\ sc w = [].
+
+Lemma quiet_step_func w : quiet w -> exists w', step_func w = Some w' /\ quiet w'.
+Proof. intros (F & A & C). unfold step_func. rewrite F. simpl. eexists; split; [reflexivity|]. repeat split; assumption. Qed.
+Lemma quiet_step_alloc w : quiet w -> exists w', step_alloc w = Some w' /\ quiet w'.
+Proof. intros (F & A & C). unfold step_alloc. rewrite A. simpl. eexists; split; [reflexivity|]. repeat split; assumption. Qed.
+Lemma quiet_step_copy w : quiet w -> exists w', step_copy w = Some w' /\ quiet w' /\ tr w' = tr w.
+Proof. intros (F & A & C). unfold step_copy. rewrite C. simpl. eexists; split; [reflexivity|]. repeat split; assumption. Qed.
+
+Lemma quiet_emit w e : quiet w -> quiet (emit w e).
+Proof. intros (F & A & C). repeat split; assumption. Qed.
+
+Lemma quiet_relocate c w v : quiet w -> exists w', relocate c w v = (w', Some v) /\ quiet w'.
+Proof.
+  intros Q. unfold relocate, move_ctor. destruct c; simpl;
+  try (eexists; split; [reflexivity|]; repeat apply quiet_emit; exact Q).
+  destruct (quiet_step_copy w Q) as (w1 & E & Q1 & _). rewrite E. simpl.
+  eexists; split; [reflexivity|]. repeat apply quiet_emit; exact Q1.
+Qed.
+
+Lemma quiet_replace_relocate c w s m : quiet w -> exists w', replace_relocate c w s m = (w', Some (m, s)) /\ quiet w'.
+Proof.
+  intros Q. destruct (nothrow_reloc c) eqn:Hc.
+  - unfold replace_relocate. rewrite Hc.
+    destruct (quiet_relocate c w m Q) as (w1 & E1 & Q1). rewrite E1.
+    destruct (quiet_relocate c w1 s Q1) as (w2 & E2 & Q2). rewrite E2. eexists; split; [reflexivity|exact Q2].
+  - destruct c; try discriminate. unfold replace_relocate, copy_ctor, replace, move_assign. simpl.
+    destruct (quiet_step_copy w Q) as (w1 & E1 & Q1 & _). rewrite E1. simpl.
+    assert (Q1' : quiet (emit w1 (ECopy m))) by (apply quiet_emit; exact Q1).
+    destruct (quiet_step_copy _ Q1') as (w2 & E2 & Q2 & _). rewrite E2. simpl.
+    eexists; split; [reflexivity|]. repeat apply quiet_emit. exact Q2.
+Qed.
+
+Lemma quiet_extract_reloc c w x r : quiet w -> exists w', extract_reloc c w x r = (w', Some x) /\ quiet w'.
+Proof.
+  intros Q. unfold extract_reloc. destruct r as [l|].
+  - destruct (quiet_replace_relocate c w l x Q) as (w' & E & Q'). rewrite E. eexists; split; [reflexivity|exact Q'].
+  - apply quiet_relocate. exact Q.
+Qed.
+
+Lemma tstep_quiet_progress c multi st : t_stat st = Running -> quiet (t_w st) ->
+  (t_rest st = [] /\ t_stat (tstep c multi st) = Finished) \/
+  (t_stat (tstep c multi st) = Running /\ quiet (t_w (tstep c multi st)) /\
+   S (length (t_rest (tstep c multi st))) = length (t_rest st)).
+Proof.
+  destruct st as [kept rest dst w stat shape]. simpl. intros -> Q. unfold tstep. simpl.
+  destruct rest as [|x r]; simpl; [left; split; reflexivity|]. right.
+  destruct (quiet_step_func w Q) as (w1 & E1 & Q1). rewrite E1.
+  destruct (negb multi && has_key dst (key x)); simpl; [split; [reflexivity|split; [assumption|reflexivity]]|].
+  destruct (quiet_step_alloc w1 Q1) as (w2 & E2 & Q2). rewrite E2.
+  destruct (pop shape) as [internal sh].
+  destruct (quiet_extract_reloc c w2 x (pred_of kept internal) Q2) as (w3 & E3 & Q3). rewrite E3. simpl.
+  split; [reflexivity|split; [assumption|reflexivity]].
+Qed.
+
+Lemma iter_shift {A} (f : A -> A) n x : Nat.iter (S n) f x = Nat.iter n f (f x).
+Proof. induction n; simpl; [reflexivity|]. simpl in IHn. rewrite <- IHn. reflexivity. Qed.
+
+Lemma trun_stable c multi n st : t_stat st <> Running -> trun c multi n st = st.
+Proof.
+  intros H. induction n; [reflexivity|]. unfold trun in *. simpl. rewrite IHn.
+  unfold tstep. destruct (t_stat st); [congruence|reflexivity|reflexivity].
+Qed.
+
+Theorem tmerge_quiet_finishes c multi src dst w shape : quiet w ->
+  t_stat (tmerge c multi src dst w shape) = Finished.
+Proof.
+  intros Q. unfold tmerge.
+  assert (G : forall n st, t_stat st = Running -> quiet (t_w st) -> (length (t_rest st) < n)%nat ->
+              t_stat (trun c multi n st) = Finished).
+  { induction n; intros st R Qs L; [lia|].
+    unfold trun. rewrite iter_shift. fold (trun c multi n (tstep c multi st)).
+    destruct (tstep_quiet_progress c multi st R Qs) as [[E F]|(R' & Q' & L')].
+    - rewrite trun_stable; [exact F|congruence].
+    - apply IHn; [exact R'|exact Q'|lia]. }
+  apply G; simpl; [reflexivity|exact Q|lia].
+Qed.
+
+(* ================================================================ TreeSet::pvMergeToLinear *)
+
+Lemma advance_app multi x : forall dpost w dpre w' p q,
+  advance multi w x dpre dpost = (w', Some (p, q)) -> p ++ q = dpre ++ dpost.
+Proof.
+  induction dpost as [|d r IH]; simpl; intros w dpre w' p q H.
+  - inversion H; reflexivity.
+  - destruct (step_func w) as [w1|]; [|discriminate].
+    destruct (is_ordered multi d x).
+    + apply IH in H. rewrite H. rewrite <- app_assoc. reflexivity.
+    + inversion H; reflexivity.
+Qed.
+
+Lemma advance_no_copy multi x : forall dpost w dpre w' o,
+  advance multi w x dpre dpost = (w', o) -> no_copy (tr w) -> no_copy (tr w').
+Proof.
+  induction dpost as [|d r IH]; simpl; intros w dpre w' o H N.
+  - inversion H; subst; exact N.
+  - destruct (step_func w) as [w1|] eqn:Ef.
+    + apply step_func_tr in Ef. destruct (is_ordered multi d x).
+      * eapply IH; [exact H|]. rewrite Ef. exact N.
+      * inversion H; subst. rewrite Ef. exact N.
+    + inversion H; subst. apply no_copy_cons; [reflexivity|exact N].
+Qed.
+
+Lemma lstep_conserve c multi init st :
+  Permutation (lsrc_items st ++ ldst_items st) init ->
+  Permutation (lsrc_items (lstep c multi st) ++ ldst_items (lstep c multi st)) init.
+Proof.
+  unfold lsrc_items, ldst_items, lstep. destruct st as [kept rest dpre dpost w stat shape]. simpl.
+  destruct stat; simpl; try tauto.
+  destruct rest as [|x r]; simpl; [tauto|].
+  destruct (advance multi w x dpre dpost) as [w1 [[p q]|]] eqn:Ea; simpl; [|tauto].
+  apply advance_app in Ea. intros P. rewrite <- Ea in P. clear Ea.
+  set (g := if multi then (w1, Some true) else
+            match q with [] => (w1, Some true)
+            | d :: _ => match step_func w1 with None => (fail_func w1, None) | Some w2 => (w2, Some (key x <? key d)) end end).
+  destruct g as [w2 [[|]|]]; simpl; try exact P.
+  - destruct (step_alloc w2) as [w3|]; simpl; [|exact P].
+    destruct (pop shape) as [internal sh].
+    destruct (extract_reloc c w3 x (pred_of kept internal)) as [w4 [e|]] eqn:Ee; simpl; [|exact P].
+    apply extract_reloc_value in Ee. subst e. etransitivity; [|exact P].
+    (* (kept ++ r) ++ (p ++ [x]) ++ q  ~  (kept ++ x :: r) ++ p ++ q *)
+    rewrite <- !app_assoc. apply Permutation_app_head. simpl.
+    symmetry. rewrite !app_assoc. apply Permutation_middle.
+  - destruct q as [|d dr]; simpl.
+    + rewrite <- (app_assoc kept [x] r). simpl. exact P.
+    + rewrite <- (app_assoc kept [x] r). rewrite <- (app_assoc p [d] dr). simpl. exact P.
+Qed.
+
+Theorem lmerge_conservation c multi src dst w shape n :
+  Permutation (lsrc_items (lrun c multi n (linit src dst w shape)) ++ ldst_items (lrun c multi n (linit src dst w shape)))
+              (src ++ dst).
+Proof. induction n; simpl; [reflexivity|]. apply lstep_conserve. exact IHn. Qed.
+
+Lemma lstep_no_copy c multi st : nothrow_reloc c = true ->
+  no_copy (tr (l_w st)) -> no_copy (tr (l_w (lstep c multi st))).
+Proof.
+  intros Hc. unfold lstep. destruct st as [kept rest dpre dpost w stat shape]. simpl.
+  destruct stat; simpl; try tauto.
+  destruct rest as [|x r]; simpl; [tauto|].
+  destruct (advance multi w x dpre dpost) as [w1 o] eqn:Ea. intros N.
+  pose proof (advance_no_copy _ _ _ _ _ _ _ Ea N) as N1.
+  destruct o as [[p q]|]; simpl; [|exact N1].
+  assert (G : forall (g : world * option bool), 
+            g = (if multi then (w1, Some true) else
+                 match q with [] => (w1, Some true)
+                 | d :: _ => match step_func w1 with None => (fail_func w1, None) | Some w2 => (w2, Some (key x <? key d)) end end) ->
+            no_copy (tr (fst g))).
+  { intros g ->. destruct multi; [exact N1|]. destruct q; [exact N1|].
+    destruct (step_func w1) eqn:Ef; simpl; [apply step_func_tr in Ef; rewrite Ef; exact N1|apply no_copy_cons; [reflexivity|exact N1]]. }
+  specialize (G _ eq_refl).
+  destruct (if multi then (w1, Some true) else
+            match q with [] => (w1, Some true)
+            | d :: _ => match step_func w1 with None => (fail_func w1, None) | Some w2 => (w2, Some (key x <? key d)) end end)
+    as [w2 [[|]|]]; simpl in *; try exact G.
+  - destruct (step_alloc w2) as [w3|] eqn:Eal; simpl; [|apply no_copy_cons; [reflexivity|exact G]].
+    apply step_alloc_tr in Eal.
+    destruct (pop shape) as [internal sh].
+    destruct (extract_reloc c w3 x (pred_of kept internal)) as [w4 o4] eqn:Ee.
+    assert (N4 : no_copy (tr w4)) by (eapply extract_reloc_no_copy; [exact Hc| |exact Ee]; rewrite Eal; exact G).
+    destruct o4; simpl; exact N4.
+  - destruct q; simpl; exact G.
+Qed.
+
+Theorem lmerge_no_copy c multi src dst w shape n : nothrow_reloc c = true -> no_copy (tr w) ->
+  no_copy (tr (l_w (lrun c multi n (linit src dst w shape)))).
+Proof. intros Hc N. induction n; simpl; [exact N|]. apply lstep_no_copy; assumption. Qed.
+
+(* ================================================================ holder: extract / Insert(ExtractedItem&&) *)
+
+(* for every schedule: after extract_at (success or failure) bucket (+) holder is the bucket *)
+Theorem extract_at_conservation c w b i w' b' h ok : (i < length b)%nat ->
+  extract_at c w b i = (w', b', h, ok) -> Permutation (holder_items h ++ b') b /\ (ok = false -> b' = b /\ h = None).
+Proof.
+  unfold extract_at. intros Hi.
+  destruct (extract_reloc c w (nth i b 0) (repl_of b i)) as [w1 [e|]] eqn:Ee; intros H; inversion H; subst; simpl.
+  - apply extract_reloc_value in Ee. subst e. split; [apply bucket_remove_perm; exact Hi|discriminate].
+  - split; [reflexivity|auto].
+Qed.
+
+(* for every schedule: Insert(ExtractedItem&&) keeps holder (+) destination; the item leaves the holder only if
+   it was inserted; a refused item (key present in a unique-key set) or a failure leaves it in the holder *)
+Theorem insert_holder_conservation c multi w dst h w' dst' h' st :
+  insert_holder c multi w dst h = (w', dst', h', st) ->
+  Permutation (holder_items h' ++ dst') (holder_items h ++ dst) /\
+  (h' = h /\ dst' = dst \/ exists x, h = Some x /\ h' = None /\ dst' = dst ++ [x] /\ st = Finished /\
+                                   (multi = false -> has_key dst (key x) = false)) /\
+  (multi = false -> NoDup (map key dst) -> NoDup (map key dst')).
+Proof.
+  unfold insert_holder. destruct h as [x|]; [|intros H; inversion H; subst; simpl; auto].
+  destruct (step_func w) as [w1|]; [|intros H; inversion H; subst; simpl; auto].
+  destruct (negb multi && has_key dst (key x)) eqn:Eh; [intros H; inversion H; subst; simpl; auto|].
+  destruct (step_alloc w1) as [w2|]; [|intros H; inversion H; subst; simpl; auto].
+  destruct (relocate c w2 x) as [w3 [e|]] eqn:Er; intros H; inversion H; subst; simpl; auto.
+  apply relocate_value in Er. subst e.
+  assert (K : multi = false -> has_key dst (key x) = false) by (intros ->; simpl in Eh; exact Eh).
+  split; [symmetry; apply Permutation_cons_append|]. split.
+  - right. exists x. auto.
+  - intros Hm N. apply nodup_keys_snoc; auto.
+Qed.
+
+(* extract_insert_roundtrip: with no failure scheduled, extracting any item of a unique-key bucket and inserting
+   the handle back into the same set succeeds, empties the handle and restores the set (as a multiset) *)
+Theorem extract_insert_roundtrip c w b i : quiet w -> (i < length b)%nat -> NoDup (map key b) ->
+  exists w1 b1 x w2 b2,
+    extract_at c w b i = (w1, b1, Some x, true) /\ x = nth i b 0 /\
+    insert_holder c false w1 b1 (Some x) = (w2, b2, None, Finished) /\ Permutation b2 b /\ quiet w2.
+Proof.
+  intros Q Hi N. unfold extract_at.
+  destruct (quiet_extract_reloc c w (nth i b 0) (repl_of b i) Q) as (w1 & E1 & Q1). rewrite E1.
+  exists w1, (bucket_remove b i), (nth i b 0).
+  pose proof (bucket_remove_perm b i Hi) as P.
+  assert (K : has_key (bucket_remove b i) (key (nth i b 0)) = false).
+  { destruct (has_key (bucket_remove b i) (key (nth i b 0))) eqn:E; [|reflexivity]. exfalso.
+    apply has_key_true_in in E.
+    assert (N2 : NoDup (map key (nth i b 0 :: bucket_remove b i))).
+    { eapply Permutation_NoDup; [|exact N]. apply Permutation_map. symmetry. exact P. }
+    simpl in N2. inversion N2; subst. contradiction. }
+  unfold insert_holder.
+  destruct (quiet_step_func w1 Q1) as (w2 & E2 & Q2). rewrite E2. simpl. rewrite K.
+  destruct (quiet_step_alloc w2 Q2) as (w3 & E3 & Q3). rewrite E3.
+  destruct (quiet_relocate c w3 (nth i b 0) Q3) as (w4 & E4 & Q4). rewrite E4.
+  exists w4, (bucket_remove b i ++ [nth i b 0]). repeat split; try assumption.
+  etransitivity; [symmetry; apply Permutation_cons_append|exact P].
+Qed.
+
+(* the holder's move constructor and Clear, for every schedule: at most one relocated item, never lost *)
+Theorem holder_move_conservation c w h w' n o : holder_move c w h = (w', n, o) ->
+  match n with
+  | Some h2 => o = None /\ h2 = h          (* constructed: the item now lives in the new holder only *)
+  | None => o = h                           (* constructor threw: the old holder still owns the item *)
+  end.
+Proof.
+  unfold holder_move. destruct h as [x|]; [|intros H; inversion H; auto].
+  destruct (relocate c w x) as [w1 [e|]] eqn:E; intros H; inversion H; subst; auto.
+  apply relocate_value in E. subst. auto.
+Qed.
+
+Theorem holder_no_copy c multi w dst h w' dst' h' st : nothrow_reloc c = true -> no_copy (tr w) ->
+  insert_holder c multi w dst h = (w', dst', h', st) -> no_copy (tr w').
+Proof.
+  intros Hc N. unfold insert_holder. destruct h as [x|]; [|intros H; inversion H; subst; exact N].
+  destruct (step_func w) as [w1|] eqn:Ef; [|intros H; inversion H; subst; apply no_copy_cons; [reflexivity|exact N]].
+  apply step_func_tr in Ef.
+  destruct (negb multi && has_key dst (key x)); [intros H; inversion H; subst; rewrite Ef; exact N|].
+  destruct (step_alloc w1) as [w2|] eqn:Ea; [|intros H; inversion H; subst; apply no_copy_cons; [reflexivity|rewrite Ef; exact N]].
+  apply step_alloc_tr in Ea.
+  destruct (relocate c w2 x) as [w3 o] eqn:Er.
+  assert (N3 : no_copy (tr w3)) by (eapply relocate_no_copy; [exact Hc| |exact Er]; rewrite Ea, Ef; exact N).
+  destruct o; intros H; inversion H; subst; exact N3.
+Qed.
